@@ -736,6 +736,24 @@ def sim_cases(rng, tier):
                        'integrator': integ, 'probe': ['L1.i'], 'ref': ['rl', Rv, Lv], 'id': 'RL:' + integ, 'timeout': 600})
             cs.append({'kind': 'sim', 'net': ['V1 1 0 step 1', 'R1 1 2 1', 'L1 2 3 0.5', 'C1 3 0 0.25'], 'T': '4', 'N': 4 * (N - 1) + 1,
                        'integrator': integ, 'probe': ['C1.v'], 'ref': ['rlc'], 'id': 'RLC:' + integ, 'timeout': 900})
+        # non-uniform increasing time vectors: the companion conductances change from step to step
+        NU = (65, 257) if tier == 'quick' else (129, 513)
+        for grid in ('quadratic', 'two-rate'):
+            for N in NU:
+                cs.append({'kind': 'sim', 'net': ['V1 1 0 step 2', 'R1 1 2 %s' % float(F(Rv)), 'C1 2 0 %s' % float(F(Cv))], 'T': '4', 'N': N, 'grid': grid,
+                           'integrator': integ, 'probe': ['C1.v'], 'ref': ['rc', Rv, Cv], 'id': 'RC:%s:%s' % (integ, grid), 'timeout': 600, 'symbolic': N == NU[0]})
+                cs.append({'kind': 'sim', 'net': ['V1 1 0 step 2', 'R1 1 2 %s' % float(F(Rv)), 'L1 2 0 %s' % float(F(Lv))], 'T': '4', 'N': N, 'grid': grid,
+                           'integrator': integ, 'probe': ['L1.i'], 'ref': ['rl', Rv, Lv], 'id': 'RL:%s:%s' % (integ, grid), 'timeout': 600, 'symbolic': N == NU[0]})
+            if grid == 'quadratic' or tier != 'quick':
+                for N in NU:
+                    cs.append({'kind': 'sim', 'net': ['V1 1 0 step 1', 'R1 1 2 1', 'L1 2 3 0.5', 'C1 3 0 0.25'], 'T': '4', 'N': 2 * (N - 1) + 1, 'grid': grid,
+                               'integrator': integ, 'probe': ['C1.v'], 'ref': ['rlc'], 'id': 'RLC:%s:%s' % (integ, grid), 'timeout': 900})
+        # short runs compared step by step with the exact companion recursion of the model (dt_k per step)
+        for grid, N in (('uniform', 17), ('quadratic', 33), ('two-rate', 17)):
+            cs.append({'kind': 'sim', 'net': ['V1 1 0 step 2', 'R1 1 2 %s' % float(F(Rv)), 'C1 2 0 %s' % float(F(Cv))], 'T': '4', 'N': N, 'grid': grid,
+                       'integrator': integ, 'probe': ['C1.v', 'C1.i'], 'rec': ['C', Rv, Cv, '2'], 'id': 'rec:RC:%s:%s' % (integ, grid), 'timeout': 300})
+            cs.append({'kind': 'sim', 'net': ['V1 1 0 step 2', 'R1 1 2 %s' % float(F(Rv)), 'L1 2 0 %s' % float(F(Lv))], 'T': '4', 'N': N, 'grid': grid,
+                       'integrator': integ, 'probe': ['L1.v', 'L1.i'], 'rec': ['L', Rv, Lv, '2'], 'id': 'rec:RL:%s:%s' % (integ, grid), 'timeout': 300})
     return cs
 
 
@@ -778,6 +796,15 @@ def simstep_cases(rng, n):
     return cs
 
 
+SIM_REC_HDR = '''From Coq Require Import Qabs.
+Definition close (m o : Qc) : bool := Qle_bool (Qabs (m - o)%Qc) ((1 # 1000000000) * (1 + Qabs m))%Q.
+Fixpoint close_run (m o : list (Qc * Qc)) : bool :=
+  match m, o with
+  | [], [] => true
+  | (a, b) :: r, (c, d) :: s => close a c && close b d && close_run r s
+  | _, _ => false
+  end.
+'''
 SIM_CASES_HDR = '''From Coq Require Import QArith Qcanon Bool List ZArith.
 Require Import LT.FieldSec LT.NumEval LT.NumEvalSim Gen.NumSimGen.
 Import ListNotations.
@@ -1260,6 +1287,7 @@ def run(tier='quick', replay=None):
                 out.setdefault(cid, []).append((N, max(abs(a - b) for a, b in zip(ys, ref)), c, ys, ref))
             return {k: sorted(v) for k, v in out.items()}
         groups = {}
+        rec_runs = []
         for c, r in zip(scases, sres):
             if 'timeout' in r:
                 res.count('impl_timeout')
@@ -1268,8 +1296,44 @@ def run(tier='quick', replay=None):
                 add_cex('sim:error:' + c['id'], 'Simulator failed: ' + r['error'], c)
                 continue
             N = int(c['N'])
-            tv = [float(F(c['T'])) * i / (N - 1) for i in range(N)]
-            groups[(c['id'], N)] = (c, r[c['probe'][0]], sim_ref(c['ref'], tv))
+            tv = r['tv']
+            if 'rec' in c:
+                rec_runs.append((c, r))
+                continue
+            ref = sim_ref(c['ref'], tv)
+            if 'sym' in r and max(abs(a - b) for a, b in zip(r['sym'][1:], ref[1:])) > 1e-6:
+                add_cex('sim:symbolic-response-differs:' + c['id'], 'the symbolic response of %s differs from the closed form' % c['probe'][0], c, float_evidence=True)
+            groups[(c['id'], N)] = (c, r[c['probe'][0]], ref)
+        # step-by-step: Simulator vs the exact recursion of the translated companion formulas, evaluated in Coq over Qc
+        # with the step size of EACH step; the simulator works in floats, so the comparison is |model - float| <= 1e-9 (1 + |model|)
+        if ns is not None and rec_runs and os.path.exists(w.path('NumSimGen.vo')):
+            lines = []
+            for i, (c, r) in enumerate(rec_runs):
+                kind, Rv_, Xv_, Vs_ = c['rec']
+                tag = kind + ('T' if c['integrator'] == 'trapezoid' else 'B')
+                tvq = [F(t) for t in r['tv']]
+                dts = '[%s]' % '; '.join(qcl(b - a) for a, b in zip(tvq, tvq[1:]))
+                vs = r[c['probe'][0]][1:]
+                is_ = r[c['probe'][1]][1:]
+                obs = '[%s]' % '; '.join('(%s, %s)' % (qcl(F(a)), qcl(F(b))) for a, b in zip(vs, is_))
+                lines.append('(%d%%nat, close_run (series_run (K:=QcF) geq_%s veq_%s %s %s %s %s (0%%Qc, 0%%Qc)) %s)' % (
+                    i, tag, tag, qcl(Xv_), qcl(Rv_), qcl(Vs_), dts, obs))
+            w.write('simrec.v', SIM_CASES_HDR + SIM_REC_HDR + 'Definition cases : list (nat * bool) := [\n%s].\nEval vm_compute in (failing cases).\n' % ';\n'.join(lines))
+            ok, out, secs = core.coqc(w.dir, 'simrec.v', timeout=600)
+            fl = core.parse_eval_list(out) if ok else None
+            res.extra['recursion_runs_compared'] = len(rec_runs)
+            if fl is None:
+                res.failed_obl.append(('correspondence_eval', 'simrec.v', out[-600:]))
+                res.obligations += 1
+            else:
+                for i in fl:
+                    c, r = rec_runs[i]
+                    add_cex('sim:differs-from-companion-recursion:%s' % c['id'].split(':', 1)[1],
+                            'Simulator(%s) on the %s time vector differs from the step-by-step recursion v = i/geq(dt_k) + veq(dt_k), Vs - v = R i '
+                            'of the translated companion model by more than 1e-9' % (c['integrator'], c['grid']), c, lcapy={'tv': r['tv'], c['probe'][0]: r[c['probe'][0]]},
+                            float_evidence=True)
+            for c, r in rec_runs:
+                res.add_case('simrec|' + c['id'], True, None)
         conv = {}
         for cid, lst in errs(groups).items():
             if len(lst) < 2:
